@@ -38,14 +38,15 @@ def pageOps (lines : List Str) : List Pdf.CS.Operation :=
 /-- the text a line shows: its bytes through WinAnsiEncoding, then NFC -/
 def shown (ext : Ext) (b : Str) : Str := (FontDecode.decodeString ext.nfc defaultFont b).getD []
 
-/-- an object store that holds the document in the base layout -/
-structure BaseStore (res : Res) (d : LDoc) : Prop where
+/-- an object store that holds the document in the base layout; `cont i` is the decoded
+content stream of page `i` -/
+structure BaseStore (res : Res) (d : LDoc) (cont : Nat → Str) : Prop where
   cat : res 1 = .ok (.obj catObj)
   pages : res 2 = .ok (.obj (.dict (pagesDict d.length)))
   font : res 3 = .ok (.obj fontObj)
   leaf : ∀ i, i < d.length → res (leafNum i) = .ok (.obj (.dict (leafDict i)))
-  cont : ∀ i (h : i < d.length), ∃ c, res (contNum i) = .ok (.stream (some c)) ∧
-    Pdf.CS.csParse (PdfDoc.joinContents [c]) = some (pageOps d[i])
+  cont : ∀ i (h : i < d.length), res (contNum i) = .ok (.stream (some (cont i))) ∧
+    Pdf.CS.csParse (PdfDoc.joinContents [cont i]) = some (pageOps d[i])
 
 mutual
 def leavesTree : List Dict → List RTree
@@ -53,10 +54,11 @@ def leavesTree : List Dict → List RTree
   | d :: ds => .leaf d :: leavesTree ds
 end
 
-theorem buildKids_leaves (res : Res) (n : Nat) (hleaf : ∀ i, i < n → res (leafNum i) = .ok (.obj (.dict (leafDict i)))) :
+theorem buildKids_leaves (res : Res) (n : Nat) (hleaf : ∀ i, i < n → res (leafNum i) = .ok (.obj (.dict (leafDict i))))
+    (dep : Nat) (hdep : dep < PdfDoc.maxPageTreeDepth) :
     ∀ (m k fuel : Nat) (vis : List Nat), k + m ≤ n → fuel ≥ 2 * m + 1 →
       (∀ v ∈ vis, ∀ j, k ≤ j → v ≠ leafNum j) →
-      ∃ vis', buildKids res fuel vis (kidsOf k m) =
+      ∃ vis', buildKids res fuel dep vis (kidsOf k m) =
         .ok (leavesTree ((List.range' k m).map leafDict), vis') := by
   intro m
   induction m with
@@ -87,8 +89,9 @@ theorem buildKids_leaves (res : Res) (n : Nat) (hleaf : ∀ i, i < n → res (le
     have hneg : ¬ ((leafNum k : Nat) : Int) < 0 := by omega
     rw [e1, e2]
     simp only [buildKids, hneg, if_false, Int.toNat_natCast, hnot, Bool.false_eq_true, hleaf k (by omega)]
-    have hb : buildNode res (f + 1) (leafNum k :: vis) (leafDict k) = .ok (.leaf (leafDict k), leafNum k :: vis) := by
-      simp [buildNode, leafDict, dget, kType, kPages, kPage, kContents]
+    have hb : buildNode res (f + 1) dep (leafNum k :: vis) (leafDict k) = .ok (.leaf (leafDict k), leafNum k :: vis) := by
+      have : ¬ dep ≥ PdfDoc.maxPageTreeDepth := by omega
+      simp [buildNode, this, leafDict, dget, kType, kPages, kPage, kContents]
     rw [hb]
     simp only [h2, leavesTree]
 
@@ -103,10 +106,11 @@ theorem depth_pagesDict (n : Nat) : (Obj.dict (pagesDict n)).depth = 3 := by
 /-- the page tree of the base layout -/
 def baseTree (n : Nat) : RTree := .node (pagesDict n) (leavesTree ((List.range' 0 n).map leafDict))
 
-theorem pageTree_base (res : Res) (d : LDoc) (hs : BaseStore res d) (fuel : Nat) (hf : fuel ≥ 2 * d.length + 3) :
+theorem pageTree_base (res : Res) (d : LDoc) (cont : Nat → Str) (hs : BaseStore res d cont) (fuel : Nat)
+    (hf : fuel ≥ 2 * d.length + 3) :
     pageTree res fuel (some 1) = .ok (baseTree d.length) := by
   obtain ⟨f, rfl⟩ : ∃ f, fuel = f + 1 := ⟨fuel - 1, by omega⟩
-  obtain ⟨vis', hk⟩ := buildKids_leaves res d.length hs.leaf d.length 0 f [] (by omega) (by omega)
+  obtain ⟨vis', hk⟩ := buildKids_leaves res d.length hs.leaf 1 (by decide) d.length 0 f [] (by omega) (by omega)
     (fun v hv => by cases hv)
   have hres2 : resolve res (.ref 2 0) = .ok (.obj (.dict (pagesDict d.length))) := by
     simp [resolve, hs.pages]
@@ -122,7 +126,8 @@ theorem pageTree_base (res : Res) (d : LDoc) (hs : BaseStore res d) (fuel : Nat)
   have e3 : dget (pagesDict d.length) kType = some (.name kPages) := by simp [dget, pagesDict]
   have e4 : dget (pagesDict d.length) kKids = some (.arr (kidsOf 0 d.length)) := by
     simp [dget, pagesDict, kType, kKids]
-  simp only [buildNode, e3, e4, if_true, resolve, hk, baseTree]
+  have e5 : ¬ (0 ≥ PdfDoc.maxPageTreeDepth) := by decide
+  simp only [buildNode, e5, if_false, e3, e4, if_true, visitKidsRef, resolve, hk, baseTree]
 
 theorem leafDicts_leaves (ds : List Dict) : leafDictsList (leavesTree ds) = ds := by
   induction ds with
@@ -206,13 +211,29 @@ theorem run_pageOps (res : Res) (ext : Ext) (hfont : res 3 = .ok (.obj fontObj))
   have := run_tjs res ext hfont hdec lines []
   simpa using this
 
-theorem pageStrings_base (res : Res) (ext : Ext) (d : LDoc) (hs : BaseStore res d)
-    (hdec : ∀ b, (FontDecode.decodeString ext.nfc defaultFont b).isSome = true) (i : Nat) (hi : i < d.length) :
+/-- the content of a page whose single stream fits the limit of 64 MiB -/
+theorem contentBytes_one (res : Res) (n : Nat) (c : Str) (hc : res n = .ok (.stream (some c)))
+    (hsize : c.length ≤ PdfDoc.maxPageContentBytes) :
+    contentBytes res (some (.ref n 0)) = .ok (some (PdfDoc.joinContents [c])) := by
+  have hneg : ¬ ((n : Nat) : Int) < 0 := by omega
+  have hnot : ¬ (PdfDoc.maxPageContentBytes < c.length) := by omega
+  simp [contentBytes, resolve, hneg, hc, decodedParts, joinParts, PdfDoc.joinBounded, PdfDoc.joinLoop, hnot,
+    PdfDoc.joinContents, PdfDoc.joinPiece]
+
+/-- … and of a page whose single stream exceeds it: `extractTextWithFragments` returns an error -/
+theorem contentBytes_one_beyond (res : Res) (n : Nat) (c : Str) (hc : res n = .ok (.stream (some c)))
+    (hsize : c.length > PdfDoc.maxPageContentBytes) :
+    contentBytes res (some (.ref n 0)) = .error .err := by
+  have hneg : ¬ ((n : Nat) : Int) < 0 := by omega
+  have hnot : PdfDoc.maxPageContentBytes < c.length := by omega
+  simp [contentBytes, resolve, hneg, hc, decodedParts, joinParts, PdfDoc.joinBounded, PdfDoc.joinLoop, hnot]
+
+theorem pageStrings_base (res : Res) (ext : Ext) (d : LDoc) (cont : Nat → Str) (hs : BaseStore res d cont)
+    (hdec : ∀ b, (FontDecode.decodeString ext.nfc defaultFont b).isSome = true) (i : Nat) (hi : i < d.length)
+    (hsize : (cont i).length ≤ PdfDoc.maxPageContentBytes) :
     pageStrings res ext (some (.ref (contNum i) 0)) (some (.dict resDict)) = .ok (d[i].map (shown ext)) := by
-  obtain ⟨c, hc, hp⟩ := hs.cont i hi
-  have hneg : ¬ ((contNum i : Nat) : Int) < 0 := by omega
-  have hcb : contentBytes res (some (.ref (contNum i) 0)) = .ok (some (PdfDoc.joinContents [c])) := by
-    simp [contentBytes, resolve, hneg, hc, decodedParts]
+  obtain ⟨hc, hp⟩ := hs.cont i hi
+  have hcb := contentBytes_one res (contNum i) (cont i) hc hsize
   have hrd : resourcesDict res (some (.dict resDict)) = some resDict := by simp [resourcesDict, resolve]
   have hfo : fontsOf res (some resDict) = some [(kF1, .ref 3 0)] := by
     simp [fontsOf, resDict, dget, resolve]
@@ -220,7 +241,7 @@ theorem pageStrings_base (res : Res) (ext : Ext) (d : LDoc) (hs : BaseStore res 
   rw [hcb]
   simp only
   have hrun := run_pageOps res ext hs.font hdec d[i]
-  have hshow : showStrings res ext (some (.dict resDict)) (PdfDoc.joinContents [c]) = .ok (d[i].map (shown ext)) := by
+  have hshow : showStrings res ext (some (.dict resDict)) (PdfDoc.joinContents [cont i]) = .ok (d[i].map (shown ext)) := by
     unfold showStrings
     rw [hp]
     simp only [hrd, hfo]
@@ -236,8 +257,15 @@ theorem pageStrings_base (res : Res) (ext : Ext) (d : LDoc) (hs : BaseStore res 
     simp [pageOps] at hp
   · exact hshow
 
-theorem pagesOfSpecs_base (res : Res) (ext : Ext) (d : LDoc) (hs : BaseStore res d)
-    (hdec : ∀ b, (FontDecode.decodeString ext.nfc defaultFont b).isSome = true) :
+theorem pageStrings_base_beyond (res : Res) (ext : Ext) (d : LDoc) (cont : Nat → Str) (hs : BaseStore res d cont)
+    (i : Nat) (hi : i < d.length) (hsize : (cont i).length > PdfDoc.maxPageContentBytes) :
+    pageStrings res ext (some (.ref (contNum i) 0)) (some (.dict resDict)) = .error .err := by
+  unfold pageStrings
+  rw [contentBytes_one_beyond res (contNum i) (cont i) (hs.cont i hi).1 hsize]
+
+theorem pagesOfSpecs_base (res : Res) (ext : Ext) (d : LDoc) (cont : Nat → Str) (hs : BaseStore res d cont)
+    (hdec : ∀ b, (FontDecode.decodeString ext.nfc defaultFont b).isSome = true)
+    (hsize : ∀ i, i < d.length → (cont i).length ≤ PdfDoc.maxPageContentBytes) :
     ∀ (m k : Nat), k + m = d.length →
       pagesOfSpecs res ext ((List.range' k m).map fun i => (some (Obj.ref (contNum i) 0), some (Obj.dict resDict))) =
         .ok ((d.drop k).map fun ls => ls.map (shown ext)) := by
@@ -251,19 +279,55 @@ theorem pagesOfSpecs_base (res : Res) (ext : Ext) (d : LDoc) (hs : BaseStore res
     intro k hk
     have hi : k < d.length := by omega
     have hd : d.drop k = d[k] :: d.drop (k + 1) := (List.drop_eq_getElem_cons hi)
-    simp only [List.range'_succ, List.map_cons, pagesOfSpecs, pageStrings_base res ext d hs hdec k hi,
+    simp only [List.range'_succ, List.map_cons, pagesOfSpecs, pageStrings_base res ext d cont hs hdec k hi (hsize k hi),
       ih (k + 1) (by omega), hd]
 
+/-- one page beyond the limit makes the whole read an error (`Fragments()` of that page fails;
+the model reports the first failure of any page as the result) -/
+theorem pagesOfSpecs_base_beyond (res : Res) (ext : Ext) (d : LDoc) (cont : Nat → Str) (hs : BaseStore res d cont)
+    (hdec : ∀ b, (FontDecode.decodeString ext.nfc defaultFont b).isSome = true) :
+    ∀ (m k : Nat), k + m = d.length →
+      (∃ i, k ≤ i ∧ i < d.length ∧ (cont i).length > PdfDoc.maxPageContentBytes) →
+      pagesOfSpecs res ext ((List.range' k m).map fun i => (some (Obj.ref (contNum i) 0), some (Obj.dict resDict))) =
+        .error .err := by
+  intro m
+  induction m with
+  | zero =>
+    intro k hk ⟨i, h1, h2, _⟩
+    omega
+  | succ m ih =>
+    intro k hk ⟨i, h1, h2, h3⟩
+    have hi : k < d.length := by omega
+    simp only [List.range'_succ, List.map_cons, pagesOfSpecs]
+    by_cases hk' : (cont k).length > PdfDoc.maxPageContentBytes
+    · rw [pageStrings_base_beyond res ext d cont hs k hi hk']
+    · rw [pageStrings_base res ext d cont hs hdec k hi (by omega)]
+      have hne : i ≠ k := fun e => hk' (e ▸ h3)
+      rw [ih (k + 1) (by omega) ⟨i, by omega, h2, h3⟩]
+
 /-- the reader model above the object layer on the base layout -/
-theorem readWith_base (res : Res) (ext : Ext) (d : LDoc) (hs : BaseStore res d)
-    (hdec : ∀ b, (FontDecode.decodeString ext.nfc defaultFont b).isSome = true) (fuel : Nat)
+theorem readWith_base (res : Res) (ext : Ext) (d : LDoc) (cont : Nat → Str) (hs : BaseStore res d cont)
+    (hdec : ∀ b, (FontDecode.decodeString ext.nfc defaultFont b).isSome = true)
+    (hsize : ∀ i, i < d.length → (cont i).length ≤ PdfDoc.maxPageContentBytes) (fuel : Nat)
     (hf : fuel ≥ 2 * d.length + 3) :
     readWith res ext fuel (some 1) = .ok (d.map fun ls => ls.map (shown ext)) := by
   unfold readWith
-  rw [pageTree_base res d hs fuel hf]
+  rw [pageTree_base res d cont hs fuel hf]
   simp only [pagesOfTree, pageSpecs_base]
-  have := pagesOfSpecs_base res ext d hs hdec d.length 0 (by omega)
+  have := pagesOfSpecs_base res ext d cont hs hdec hsize d.length 0 (by omega)
   simpa using this
+
+/-- … and when the content of some page exceeds 64 MiB -/
+theorem readWith_base_beyond (res : Res) (ext : Ext) (d : LDoc) (cont : Nat → Str) (hs : BaseStore res d cont)
+    (hdec : ∀ b, (FontDecode.decodeString ext.nfc defaultFont b).isSome = true)
+    (hbig : ∃ i, i < d.length ∧ (cont i).length > PdfDoc.maxPageContentBytes) (fuel : Nat)
+    (hf : fuel ≥ 2 * d.length + 3) :
+    readWith res ext fuel (some 1) = .error .err := by
+  unfold readWith
+  rw [pageTree_base res d cont hs fuel hf]
+  simp only [pagesOfTree, pageSpecs_base]
+  obtain ⟨i, h1, h2⟩ := hbig
+  exact pagesOfSpecs_base_beyond res ext d cont hs hdec d.length 0 (by omega) ⟨i, by omega, h1, h2⟩
 
 /-! ### writing a store as an abstract file -/
 
